@@ -28,20 +28,20 @@ def _jobs_store_family(oracles, family_untimed, family_timed, tier, stores_untim
     q = tier == "quick"
     for s in stores_untimed:
         n = (2 if s == "RPRFS" else 3) if q else (3 if s == "RPRFS" else 4)
-        jobs.append(m1(s, family_untimed, n, 2 if q else 3, oracles, 12 if q else 120))
+        jobs.append(m1(s, family_untimed, n, 2 if q else 3, oracles, 12 if q else 60))
     for s in stores_timed:
         if q:
             jobs.append(m1(s, family_timed, 2, 1, oracles, 12, R2=1, USE=False))
             if s.startswith("BUF"):
                 jobs.append(m1(s, family_timed, 3, 1, oracles, 12, R2=1, USE=False, TR=False))
         else:
-            jobs.append(m1(s, family_timed, 2, 2, oracles, 150, R2=1, USE=True))
-            jobs.append(m1(s, family_timed, 3, 1, oracles, 150, R2=1, USE=True, TR=False))
+            jobs.append(m1(s, family_timed, 2, 2, oracles, 75, R2=1, USE=True))
+            jobs.append(m1(s, family_timed, 3, 1, oracles, 75, R2=1, USE=True, TR=False))
     for s in belts:
         if q:
             jobs.append(m1(s, family_timed, 2, 1, oracles, 10, R2=1, USE=False))
         else:
-            jobs.append(m1(s, family_timed, 2, 2, oracles, 120, R2=1, USE=True))
+            jobs.append(m1(s, family_timed, 2, 2, oracles, 60, R2=1, USE=True))
     if extra:
         jobs.extend(extra(tier))
     return jobs
@@ -61,10 +61,10 @@ PROPS["C01"] = {
                    "variables. After every call and kernel event the ledger occupancy (puts minus gets) plus granted-unused space reservations "
                    "must be <= capacity, and a put with a granted reservation must not raise.",
     "jobs": lambda tier: _jobs_store_family(("C01",), "space", "space", tier) + [
-        m1(s, "both", 2, 1 if tier == "quick" else 2, ("C01",), 10 if tier == "quick" else 120, R2=0, USE=False, S=2)
+        m1(s, "both", 2, 1 if tier == "quick" else 2, ("C01",), 10 if tier == "quick" else 60, R2=0, USE=False, S=2)
         for s in ("RPRS", "RRS", "RPRFS", "BUF_FIFO", "FLEET")] + [
-        m1("BUFE_FIFO", "space", 2, 1 if tier == "quick" else 2, ("C01",), 10 if tier == "quick" else 90),
-        m1("FLEETE", "space", 2, 1 if tier == "quick" else 2, ("C01",), 10 if tier == "quick" else 90)],
+        m1("BUFE_FIFO", "space", 2, 1 if tier == "quick" else 2, ("C01",), 10 if tier == "quick" else 60),
+        m1("FLEETE", "space", 2, 1 if tier == "quick" else 2, ("C01",), 10 if tier == "quick" else 60)],
     "required_witnesses": ["C01:checked", "step:use", "cancel-granted-put"],
     "nontrivial_witnesses": ["complete"],
     "twin": twin_m1("RPRS", "space"),
@@ -90,7 +90,7 @@ PROPS["C04"] = {
                    "stores) no space request is pending while ledger occupancy + granted-unused space reservations < capacity, and no retrieval request is "
                    "pending while an available, unbound item exists (availability from the harness's own put time + delay).",
     "jobs": lambda tier: _jobs_store_family(("C04",), "both", "both", tier) + [
-        m1(s, "arrivals", 2 if tier == "quick" else 3, 1 if tier == "quick" else 2, ("C04",), 10 if tier == "quick" else 120)
+        m1(s, "arrivals", 2 if tier == "quick" else 3, 1 if tier == "quick" else 2, ("C04",), 10 if tier == "quick" else 60)
         for s in ("RPRS", "RPRFS", "BUF_FIFO", "BUF_LIFO", "RPRFS_TD", "FLEET")],
     "required_witnesses": ["C04:pending-put-checked", "C04:pending-get-checked"],
     "nontrivial_witnesses": ["complete"],
@@ -116,13 +116,18 @@ def _jobs_c05(tier):
     q = tier == "quick"
     jobs = []
     for s in ["RPRS", "RPRFS", "FLEET"]:
-        jobs.append(m1(s, "prio_get", 3 if q else 4, 2 if q else 3, ("C05",), 12 if q else 120))
-        jobs.append(m1(s, "prio_put", 3 if q else 4, 2 if q else 3, ("C05",), 12 if q else 120))
+        jobs.append(m1(s, "prio_get", 3 if q else 4, 2 if q else 3, ("C05",), 12 if q else 60))
+        jobs.append(m1(s, "prio_put", 3 if q else 4, 2 if q else 3, ("C05",), 12 if q else 60))
+    # timed priority stores also with calls made at the very start of an instant (before that instant's own events)
+    jobs.append(m1("SBELT_PRIO", "prio_put", 3, 2, ("C05",), 25 if q else 60, EARLY=True))
+    jobs.append(m1("SBELT_PRIO", "prio_get", 3, 2, ("C05",), 10 if q else 60, EARLY=True))
+    jobs.append(m1("RPRFS_TD", "prio_get", 3, 2, ("C05",), 12 if q else 60, EARLY=True))
+    jobs.append(m1("FLEET", "prio_get", 2, 2, ("C05",), 12 if q else 60, EARLY=True, name="M1/FLEET/prio_get/early"))
     for s in ["RRS", "BUF_FIFO", "SBELT_ACC", "CBELT_ACC"]:
-        jobs.append(m1(s, "prio_get", 3, 2 if q else 3, ("C05",), 10 if q else 90))
+        jobs.append(m1(s, "prio_get", 3, 2 if q else 3, ("C05",), 10 if q else 60))
         if s in ("RRS", "BUF_FIFO"):
-            jobs.append(m1(s, "prio_put", 3, 2 if q else 3, ("C05",), 10 if q else 90))
-    jobs.append({"name": "M0/PriorityReqStore", "spec": ("vfy.m0", "prs_scenario", dict(n=3 if q else 4)), "budget_s": 15 if q else 120,
+            jobs.append(m1(s, "prio_put", 3, 2 if q else 3, ("C05",), 10 if q else 60))
+    jobs.append({"name": "M0/PriorityReqStore", "spec": ("vfy.m0", "prs_scenario", dict(n=3 if q else 4)), "budget_s": 15 if q else 60,
                  "bounds": "PriorityReqStore: n requests per side with symbolic priorities and symbolic request times"})
     return jobs
 
@@ -148,9 +153,9 @@ def _jobs_c07(tier):
     q = tier == "quick"
     jobs = []
     for s in ["RPRS", "RRS", "RPRFS"]:
-        jobs.append(spec_job(f"M1/C07/{s}", "vfy.m1", "scenario_c07", 12 if q else 150, store=s, N=2, K=0 if q else 1, T=2 if q else 3))
+        jobs.append(spec_job(f"M1/C07/{s}", "vfy.m1", "scenario_c07", 12 if q else 75, store=s, N=2, K=0 if q else 1, T=2 if q else 3))
     for s in ["BUF_FIFO", "BUF_LIFO", "FLEET", "SBELT_ACC", "CBELT_ACC", "CBELT_NOACC"]:
-        jobs.append(spec_job(f"M1/C07/{s}", "vfy.m1", "scenario_c07", 14 if q else 150, store=s, N=1 if q else 2, K=0 if q else 1, T=2))
+        jobs.append(spec_job(f"M1/C07/{s}", "vfy.m1", "scenario_c07", 14 if q else 75, store=s, N=1 if q else 2, K=0 if q else 1, T=2))
     return jobs
 
 
@@ -179,7 +184,7 @@ def _jobs_c11(tier):
             jobs.append(spec_job(f"M1/C11/{s}", "vfy.m1", "scenario_c11", 14, store=s, N=2, K=1, R2=0, RMAX=2, S=1, TRN=1))
             jobs.append(spec_job(f"M1/C11/{s}/transit2", "vfy.m1", "scenario_c11", 10, store=s, N=1, K=1, R2=0, RMAX=1, S=0, TRN=2))
         else:
-            jobs.append(spec_job(f"M1/C11/{s}", "vfy.m1", "scenario_c11", 200, store=s, N=2, K=2, R2=1, RMAX=3, S=2, TRN=2))
+            jobs.append(spec_job(f"M1/C11/{s}", "vfy.m1", "scenario_c11", 90, store=s, N=2, K=2, R2=1, RMAX=3, S=2, TRN=2))
     return jobs
 
 
@@ -234,6 +239,11 @@ def fan_cfgs(tier):
     C["line-gen"] = dict(n_src=1, n_out=1, n_items=3, w=1, per_item_pd=True, delay_kind="generator")
     C["line-const"] = dict(n_src=1, n_out=1, n_items=3, w=2, delay_kind="const")
     C["line-lifo"] = dict(n_src=1, n_out=1, n_items=4, w=1, in_cap=3, sym=("pd",), conv_kw=dict(mode="LIFO"))
+    C["two-machines"] = dict(n_src=1, n_out=1, n_items=3, w=1, second_machine=True, out_delay=0)
+    C["two-machines-fanout"] = dict(n_src=1, n_out=2, n_items=3, w=2, second_machine=True, out_delay=0, out_cap=1, sym=("pd",))
+    C["line-fleet-out"] = dict(n_src=1, n_out=1, n_items=2, w=1, out_kind="fleet", out_cap=2, sym=("pd",), conv_kw=dict(fdelay=1, transit=0.5), until=14)
+    C["line-cconv-in"] = dict(n_src=1, n_out=1, n_items=3, w=1, in_kind="cconv", in_cap=3, sym=("iat", "pd"), out_delay=0)
+    C["line-cconv-out"] = dict(n_src=1, n_out=1, n_items=3, w=2, out_kind="cconv", out_cap=3, sym=("iat", "pd"))
     C["fanin-fa"] = dict(n_src=2, n_out=1, n_items=2, w=1)
     C["fanin-fa-w2-tie"] = dict(n_src=2, n_out=1, n_items=2, w=2, same_iat=True, per_item_pd=True)
     C["fanout-fa"] = dict(n_src=1, n_out=2, n_items=n3, w=1, out_cap=1)
@@ -265,7 +275,7 @@ def fan_jobs(pid, tier, names=None, extra_kw=None, budget=None):
         kw = dict(cfg)
         kw.update(extra_kw or {})
         kw["props"] = (pid,)
-        jobs.append({"name": f"M2/fan/{name}", "spec": ("vfy.m2s", "fan", kw), "budget_s": budget or (15 if tier == "quick" else 150),
+        jobs.append({"name": f"M2/fan/{name}", "spec": ("vfy.m2s", "fan", kw), "budget_s": budget or (15 if tier == "quick" else 75),
                      "bounds": str(cfg), "validate_every": 10})
     return jobs
 
@@ -327,7 +337,7 @@ PROPS["C15"] = {
     "explanation": M2_EXPL + "the edge on which every item is pulled/pushed is compared with the policy's answers (ROUND_ROBIN k mod n, constant index, user callable / generator whose answers "
                    "the solver chooses), FIRST_AVAILABLE must not cancel a granted request on a lower-index edge in the round in which it commits, and the recorded selection history must equal the routing.",
     "jobs": lambda tier: fan_jobs("C15", tier, names=["fanin-fa", "fanin-fa-w2-tie", "fanout-fa", "fanout-w2-tie", "nb-machine-fa", "nb-machine-rr", "rr-in", "rr-out", "rr-both", "idx-out", "callable-in", "generator-out", "fanout3-w3"]) + [
-        {"name": "M0/selectors", "spec": ("vfy.m0", "selector_scenario", dict(nmax=4 if tier == "quick" else 6)), "budget_s": 20 if tier == "quick" else 120, "bounds": "RoundRobin_edge_selector and _get_*_edge_index of all node classes with out-of-range answers"}],
+        {"name": "M0/selectors", "spec": ("vfy.m0", "selector_scenario", dict(nmax=4 if tier == "quick" else 6)), "budget_s": 20 if tier == "quick" else 60, "bounds": "RoundRobin_edge_selector and _get_*_edge_index of all node classes with out-of-range answers"}],
     "required_witnesses": ["C15:routing-checked", "C15:history-checked", "C15:range-checked"],
     "nontrivial_witnesses": ["complete"],
     "twin": lambda tier: ("vfy.m2s", "fan", dict(props=("C15",), n_src=2, n_out=1, n_items=1, twin=True)),
@@ -370,12 +380,12 @@ def _jobs_c14(tier):
         J.append({"name": "M2/fleet/" + name, "spec": ("vfy.m2x", "fleet", kw), "budget_s": budget, "bounds": str(kw), "validate_every": 25})
     add("cap2-2loads", 20 if q else 60, cap=2, n_loads=2)
     add("cap1-2loads", 25 if q else 60, cap=1, n_loads=2)
-    add("cap3-3loads-gap-delay", 20 if q else 120, cap=3, n_loads=3, sym=("gap", "delay"))
-    add("cap2-3loads-slow", 20 if q else 240, cap=2, n_loads=3, sym=("gap", "transit"), consumer="slow")
-    add("cap2-zero-delay", 15 if q else 240, cap=2, n_loads=2, zero=True)
+    add("cap3-3loads-gap-delay", 20 if q else 60, cap=3, n_loads=3, sym=("gap", "delay"))
+    add("cap2-3loads-slow", 20 if q else 120, cap=2, n_loads=3, sym=("gap", "transit"), consumer="slow")
+    add("cap2-zero-delay", 15 if q else 120, cap=2, n_loads=2, zero=True)
     if not q:
-        add("cap2-3loads-all", 400, cap=2, n_loads=3)
-        add("cap3-4loads", 300, cap=3, n_loads=4, sym=("gap", "delay"))
+        add("cap2-3loads-all", 150, cap=2, n_loads=3)
+        add("cap3-4loads", 120, cap=3, n_loads=4, sym=("gap", "delay"))
     return J
 
 
@@ -405,8 +415,8 @@ def conveyor_cfgs(tier):
             C[f"{kind}-acc{acc}-late"] = dict(kind=kind, acc=acc, cap=3, n_items=3, consumer="late")
     C["sconv-acc1-cap2-hold"] = dict(kind="sconv", acc=1, cap=2, n_items=3, consumer="hold")
     C["cconv-acc1-cap2-hold"] = dict(kind="cconv", acc=1, cap=2, n_items=3, consumer="hold")
-    C["sconv-acc1-2producers"] = dict(kind="sconv", acc=1, cap=3, n_items=4, consumer="late", n_prod=2)
-    C["cconv-acc1-2producers"] = dict(kind="cconv", acc=1, cap=3, n_items=4, consumer="late", n_prod=2)
+    C["sconv-acc1-2producers"] = dict(kind="sconv", acc=1, cap=3, n_items=3 if q else 4, consumer="late", n_prod=2)
+    C["cconv-acc1-2producers"] = dict(kind="cconv", acc=1, cap=3, n_items=3 if q else 4, consumer="late", n_prod=2)
     C["cconv-acc0-cap3-hold"] = dict(kind="cconv", acc=0, cap=3, n_items=3, consumer="hold")
     C["cconv-acc1-cap2-slow"] = dict(kind="cconv", acc=1, cap=2, n_items=3, consumer="slow")
     C["cconv-acc1-speed2"] = dict(kind="cconv", acc=1, cap=2, n_items=3, consumer="late", speed=2, item_len=1, length=2)
@@ -427,7 +437,7 @@ def conveyor_jobs(pid, tier, only=None):
             continue
         kw = dict(cfg)
         kw["props"] = (pid,)
-        jobs.append({"name": "M2/conveyor/" + name, "spec": ("vfy.m2x", "conveyor", kw), "budget_s": 20 if tier == "quick" else 200, "bounds": str(cfg),
+        jobs.append({"name": "M2/conveyor/" + name, "spec": ("vfy.m2x", "conveyor", kw), "budget_s": 20 if tier == "quick" else 90, "bounds": str(cfg),
                      "validate_every": 25})
     return jobs
 
@@ -492,7 +502,7 @@ def pk_jobs(pid, tier, names=None, extra_kw=None):
         kw = dict(cfg)
         kw.update(extra_kw or {})
         kw["props"] = (pid,)
-        jobs.append({"name": "M2/pk/" + name, "spec": ("vfy.m2p", "pk", kw), "budget_s": 15 if tier == "quick" else 150, "bounds": str(cfg), "validate_every": 10})
+        jobs.append({"name": "M2/pk/" + name, "spec": ("vfy.m2p", "pk", kw), "budget_s": 15 if tier == "quick" else 75, "bounds": str(cfg), "validate_every": 10})
     return jobs
 
 
@@ -574,7 +584,7 @@ def _jobs_c20(tier):
         kw = dict(cfg)
         kw["props"] = ("C20",)
         periodic = any(cfg.get(k) in ("fleet", "sconv") for k in ("e1", "e2"))
-        jobs.append({"name": "M2/combo/" + name, "spec": ("vfy.m2s", "combo", kw), "budget_s": (6 if periodic else 10) if q else 60, "bounds": str(cfg), "validate_every": 25})
+        jobs.append({"name": "M2/combo/" + name, "spec": ("vfy.m2s", "combo", kw), "budget_s": (6 if periodic else 10) if q else 30, "bounds": str(cfg), "validate_every": 25})
     for name in ["r11", "r12-nonblocking", "r11-rr2"]:
         kw = dict(pk_cfgs(tier)[name])
         kw["props"] = ("C20",)
